@@ -669,6 +669,18 @@ func (v *FnVC) effectClass(name string, fn *ssa.Function, c *ssa.CallCommon) int
 		}
 		return effNone
 	}
+	// a function value produced by a call into a dependency (e.g. the CancelFunc of context.WithTimeout)
+	if !c.IsInvoke() {
+		var src ssa.Value = c.Value
+		if ex, ok := src.(*ssa.Extract); ok {
+			src = ex.Tuple
+		}
+		if call, ok := src.(*ssa.Call); ok {
+			if sf := call.Common().StaticCallee(); sf != nil && sf.Pkg != nil && !inModule(sf.Pkg.Pkg.Path()) {
+				return effNone
+			}
+		}
+	}
 	if c.IsInvoke() {
 		if n, ok := c.Value.Type().(*types.Named); ok {
 			if n.Obj().Pkg() == nil || !inModule(n.Obj().Pkg().Path()) {
@@ -951,6 +963,10 @@ func (v *FnVC) atExit() {
 // checkFrame: nothing outside the modifies clause changes (for pre-existing objects).
 func (v *FnVC) checkFrame(st *State, env *Env, pos token.Pos) {
 	if v.C.ModifiesAll || v.C.Trusted {
+		return
+	}
+	if v.C.NoFrame {
+		v.assumedCallees[fmt.Sprintf("%s: frame (modifies clause) assumed at call sites, NOT proved for the body", v.fnName())] = true
 		return
 	}
 	if st.epoch != v.entry.epoch {
